@@ -74,6 +74,20 @@ def selectAccRej {α : Type} (acc : Bool) (proposed initial : α) : α × α :=
 
 end metro
 
+/-! ### chain statistics of hmc_oo.update_chain -/
+section chain
+variable {K : Type} [Add K] [Sub K] [Div K] [NatCast K] [OfNat K 1]
+
+/-- `acceptance = chain.acceptance + (x - chain.acceptance) / (idx + 1)` -/
+def accUpdate (a : K) (idx : Nat) (x : K) : K := a + (x - a) / ((idx : K) + 1)
+
+/-- the `fori_loop` over samples, `idx = 0, 1, …` -/
+def accRun : List K → Nat → K → K
+  | [], _, a => a
+  | x :: xs, idx, a => accRun xs (idx + 1) (accUpdate a idx x)
+
+end chain
+
 /-! ### NUTS bookkeeping (integers) -/
 
 /-- `count_trailing_ones`: the while loop `(n & 1) != 0 → (n >> 1, c + 1)` -/
